@@ -271,6 +271,12 @@ def run_c13(chk):
     ]
     cases = model_programs(chk, chk.tier, "histories")
     leaf = chains(cases)
+    chk.extra_cov["histories_model_checked"] = len(leaf)
+    cap = 10000 if quick else 120000
+    if len(leaf) > cap:     # every edge is checked on the model (AppendStable); a seeded sample is replayed on the real compiler
+        rng.shuffle(leaf)
+        chk.notes.append("%d maximal histories model-checked, %d replayed (seeded sample)" % (len(leaf), cap))
+        leaf = leaf[:cap]
     payload = []
     for c in leaf:
         pre = c["_pre"]
